@@ -339,8 +339,110 @@ impl Part for Interleaved {
     }
 }
 
+// ------------------------------------------------------------------ two connections driven by one thread
+/// An application with two connections (two LFS hosts, or a host and the relay) on one runtime thread: whenever connection A's
+/// transport is not ready in the middle of a frame, connection B writes a packet of its own before A is polled again. Each
+/// transport must receive exactly the frames written on its connection.
+#[derive(Clone, Debug)]
+pub struct TwoCase {
+    pub a: WriteCase,
+    /// frames written on the second connection, one whenever the first one is suspended
+    pub b: Vec<Vec<u8>>,
+}
+
+pub struct TwoConnections;
+impl Part for TwoConnections {
+    type Case = TwoCase;
+    fn name(&self) -> &'static str {
+        "two-connections-on-one-thread"
+    }
+    fn check(&self, c: &TwoCase, ev: &mut Local) -> Result<(), Fail> {
+        let mode = if c.a.compressed { Mode::Compressed } else { Mode::Uncompressed };
+        let pa = packets(&c.a, &mode);
+        let pb: Vec<Packet> = c.b.iter().filter_map(|f| decode_one(f, &mode).ok()).filter(|p| Codec::new(mode.clone()).encode(p).is_ok()).collect();
+        let ta = Transport::new(vec![], c.a.policy.clone()).vectored(c.a.policy.len() % 2 == 1);
+        let tb = Transport::new(vec![], vec![]);
+        let rt = tokio_runtime();
+        let (ta2, tb2, m2) = (ta.clone(), tb.clone(), mode.clone());
+        let outcome = guard(|| {
+            rt.block_on(async {
+                let mut fa = insim::net::tokio_impl::Framed::new(Box::new(ta2), Codec::new(m2.clone()));
+                let mut fb = insim::net::tokio_impl::Framed::new(Box::new(tb2), Codec::new(m2.clone()));
+                let mut sent_a: Vec<Vec<u8>> = vec![];
+                let mut sent_b: Vec<Vec<u8>> = vec![];
+                let mut next_b = 0usize;
+                let mut suspensions = 0usize;
+                for p in &pa {
+                    let expect = Codec::new(m2.clone()).encode(p).map(|b| b.to_vec());
+                    let r = {
+                        let mut fut = Box::pin(fa.write(p.clone()));
+                        let mut polls = 0;
+                        loop {
+                            polls += 1;
+                            match futures_util::poll!(fut.as_mut()) {
+                                std::task::Poll::Ready(r) => break r,
+                                std::task::Poll::Pending => {
+                                    suspensions += 1;
+                                    if !pb.is_empty() {
+                                        let q = &pb[next_b % pb.len()];
+                                        next_b += 1;
+                                        if fb.write(q.clone()).await.is_ok() {
+                                            sent_b.push(Codec::new(m2.clone()).encode(q).expect("encodable").to_vec());
+                                        }
+                                    }
+                                    if polls > 10_000 {
+                                        return Err("the write on the first connection never completes".to_string());
+                                    }
+                                },
+                            }
+                        }
+                    };
+                    match (r, expect) {
+                        (Ok(()), Ok(f)) => sent_a.push(f),
+                        (Err(_), Err(_)) => {},
+                        (Ok(()), Err(_)) => return Err("a packet the codec refuses was written successfully".to_string()),
+                        (Err(e), Ok(_)) => return Err(format!("write on the first connection failed: {e}")),
+                    }
+                }
+                Ok((sent_a, sent_b, suspensions))
+            })
+        })
+        .map_err(|p| Fail::new("c06:panic", p))?;
+        let (sent_a, sent_b, suspensions) = outcome.map_err(|e| Fail::new("c06:tokio-write-error", e))?;
+        for (which, t, sent) in [("first", &ta, &sent_a), ("second", &tb, &sent_b)] {
+            let want: Vec<u8> = sent.iter().flatten().copied().collect();
+            let got = t.written();
+            ensure!(
+                got == want,
+                "c06:bytes-duplicated-or-reordered",
+                "tokio ({}), two connections on one thread, the first suspended {suspensions} times inside its writes: the {which} connection's transport received {} bytes {}, expected its own {} frames = {} bytes {}; first difference at byte {:?}",
+                mode_name(&mode),
+                got.len(),
+                hex(&got[..got.len().min(64)]),
+                sent.len(),
+                want.len(),
+                hex(&want[..want.len().min(64)]),
+                got.iter().zip(want.iter()).position(|(a, b)| a != b)
+            );
+        }
+        if suspensions > 0 && !sent_b.is_empty() {
+            ev.nontrivial(&(c.a.compressed, &c.a.frames, &c.b));
+            ev.class("the second connection wrote while the first was suspended inside a frame");
+        } else {
+            ev.class("no suspension");
+        }
+        Ok(())
+    }
+    fn to_json(&self, c: &TwoCase) -> Value {
+        json!({"a": case_json(&c.a), "b": c.b.iter().map(|f| hex(f)).collect::<Vec<_>>()})
+    }
+    fn from_json(&self, v: &Value) -> Option<TwoCase> {
+        Some(TwoCase { a: case_from(v.get("a")?)?, b: v.get("b")?.as_array()?.iter().map(|f| unhex(f.as_str()?)).collect::<Option<Vec<_>>>()? })
+    }
+}
+
 pub fn parts() -> Vec<Box<dyn DynPart>> {
-    vec![Box::new(Writes), Box::new(Compositions), Box::new(Interleaved), Box::new(FailedWrite)]
+    vec![Box::new(Writes), Box::new(Compositions), Box::new(Interleaved), Box::new(FailedWrite), Box::new(TwoConnections)]
 }
 
 pub fn run(run: &mut Run) {
@@ -387,6 +489,14 @@ pub fn run(run: &mut Run) {
     run.max_shrink_iters = 30;
     run.prop(&Writes, long, n);
     run.max_shrink_iters = 4096;
+    // two connections on one thread: the second writes whenever the first is suspended inside a frame
+    let pol = proptest::collection::vec(prop_oneof![3 => (1usize..6).prop_map(WriteStep::Accept), 3 => Just(WriteStep::Pending), 1 => (6usize..200).prop_map(WriteStep::Accept)], 1..30);
+    let strat = (any::<bool>(), proptest::collection::vec(frame_strategy(1, 1), 1..6), proptest::collection::vec(frame_strategy(1, 1), 1..4), pol).prop_map(|(compressed, fa, fb, policy)| {
+        let mode = if compressed { Mode::Compressed } else { Mode::Uncompressed };
+        TwoCase { a: WriteCase { compressed, frames: fa.iter().map(|f| frame_bytes(f, &mode)).collect(), policy }, b: fb.iter().map(|f| frame_bytes(f, &mode)).collect() }
+    });
+    let n = run.budget(10_000, 500_000);
+    run.prop(&TwoConnections, strat, n);
     // a transport error at a frame boundary
     let strat = (any::<bool>(), proptest::collection::vec(frame_strategy(1, 1), 2..8), any::<usize>()).prop_map(|(compressed, frames, j)| {
         let mode = if compressed { Mode::Compressed } else { Mode::Uncompressed };
